@@ -6,7 +6,7 @@ WT=$1; ID=$2
 export CARGO_NET_OFFLINE=true
 cd "$WT" || exit 2
 LOG=/tmp/verify-$ID.log; : > $LOG
-DEMO_CMD=$(grep -E "cargo (test|nextest)" seed/demo_path.txt | head -1 | sed 's/^[^c]*cargo/cargo/')
+DEMO_CMD=$(grep -E "cargo (test|nextest)" seed/demo_path.txt | head -1 | sed -E 's/^.*(cargo (test|nextest))/\1/')
 echo "demo cmd: $DEMO_CMD" >> $LOG
 crates=$(grep '^+++ b/crates/' seed/patch.diff | sed 's#+++ b/crates/\([^/]*\)/.*#\1#' | sort -u)
 echo "touched crates: $crates" >> $LOG
